@@ -117,9 +117,12 @@ def snapshot(root, skip=()):
 class Scenario:
     """A sandbox: `tree` maps relative paths to bytes (files) or None (directories)."""
 
-    def __init__(self, tools, config, tree, stdin=None, args=(), env=None, devmap=(), mtimes=None):
+    def __init__(self, tools, config, tree, stdin=None, args=(), env=None, devmap=(), mtimes=None, stdin_file=False):
         self.tools = tools
         self.root = tools.box()
+        # stdin_file: standard input is a regular file instead of a pipe, so that every read(2) of a message larger than one
+        # buffer returns a full buffer (a pipe fed by the parent returns whatever has arrived: call indices would not be reproducible)
+        self.stdin_file = stdin_file
         self.config = config.replace('@R@', self.root)
         self.stdin = stdin
         self.args = list(args)
@@ -158,8 +161,12 @@ class Scenario:
     def cleanup(self):
         shutil.rmtree(self.root, ignore_errors=True)
         shutil.rmtree(self._saved, ignore_errors=True)
+        if os.path.exists(self.root + '.stdin'):
+            os.unlink(self.root + '.stdin')
 
-    def run(self, fail=None, kill=None, pause=None, pause_cmd=None, trace=True, shim=True, timeout=30, tag='run'):
+    def run(self, fail=None, kill=None, pause=None, pause_cmd=None, trace=True, shim=True, timeout=30, tag='run', fsize=None):
+        """fsize=N: the kernel's file size limit (VSHIM_FSIZE): writes crossing N bytes are short, beyond it they fail with EFBIG -
+        also the write(2) calls stdio issues by itself, which `fail=` cannot reach."""
         env = {'PATH': os.environ.get('PATH', '/usr/bin:/bin'), 'HOME': os.path.join(self.root, 'home'),
                'TMPDIR': os.path.join(self.root, 'tmp'), 'LC_ALL': 'C',
                'EXECHELPER_OUT': os.path.join(self.root, 'helper.out'), 'HELPER': self.tools.helper}
@@ -180,14 +187,29 @@ class Scenario:
                 env['VSHIM_PAUSE_CMD'] = pause_cmd
             if self.devmap:
                 env['VSHIM_DEVMAP'] = ':'.join(self.devmap)
+            if fsize is not None:
+                env['VSHIM_FSIZE'] = str(int(fsize))
         env.update(self.env_extra)
         cmd = [self.tools.mdsort, '-f', os.path.join(self.root, 'conf')] + self.args
+        sin = None
+        if self.stdin_file and self.stdin is not None:
+            sp = self.root + '.stdin'
+            if not os.path.exists(sp):
+                with open(sp, 'wb') as fh:
+                    fh.write(self.stdin)
+            sin = open(sp, 'rb')
         try:
-            r = subprocess.run(cmd, input=self.stdin if self.stdin is not None else b'', capture_output=True, env=env,
-                               timeout=timeout, cwd=self.root)
+            if sin is not None:
+                r = subprocess.run(cmd, stdin=sin, capture_output=True, env=env, timeout=timeout, cwd=self.root)
+            else:
+                r = subprocess.run(cmd, input=self.stdin if self.stdin is not None else b'', capture_output=True, env=env,
+                                   timeout=timeout, cwd=self.root)
             status, out, err = r.returncode, r.stdout, r.stderr
         except subprocess.TimeoutExpired as e:
             status, out, err = 'timeout', e.stdout or b'', e.stderr or b''
+        finally:
+            if sin is not None:
+                sin.close()
         tr = []
         if shim and trace and os.path.exists(log):
             tr = parse_trace(open(log, encoding='latin-1').read())
